@@ -1,5 +1,6 @@
 import Srtla.Model.Reg
 import Srtla.Lemmas.Reg
+import Srtla.Lemmas.RegShell
 /-!
 # C07 — the registration handshake follows the two-phase SRTLA protocol
 
@@ -101,10 +102,10 @@ theorem C07_driver_needs_no_registered_uplink (s : Sys) (now : Nat) (rcs : List 
     simp at h
   · rw [← hs2] at h
     exact absurd hk (no_drv_in_reconnects now rcs _ o h)
-  · simp only [Sys.run, Sys.step, List.nil_append, List.append_nil, stepDriver] at h ⊢
+  · simp only [Sys.run, Reg.Sys.step, List.nil_append, List.append_nil, stepDriver] at h ⊢
     have hd := C07_driver_needs_no_active
       { reg := updateActiveConnections p2.1.reg p2.1.connected, connected := p2.1.connected } (.driver now) o
-      (by simpa [Sys.step, stepDriver] using h) hk
+      (by simpa [Reg.Sys.step, stepDriver] using h) hk
     simpa [updateActiveConnections] using hd.2.1
 
 -- start-up probing, no reply; the pass at the 2000 ms probe deadline selects uplink 0 and the driver sends REG1
@@ -144,7 +145,7 @@ theorem C07_reg2_accept {x : St} (hx : Reachable x) (e : Ev) :
     · rw [ht] at h; simp at h
     · have hstep : x.sys.step (.pkt idx now buf) =
           ({ x.sys with reg := handleReg2 x.sys.reg idx buf now }, []) := by
-        simp only [Sys.step, stepPkt, hq]
+        simp only [Reg.Sys.step, stepPkt, hq]
       have hr : handleReg2 x.sys.reg idx buf now =
           { x.sys.reg with
               id := (buf.drop 2).take 256, pending := none, pendingTimeoutAt := now + reg3WaitMs,
@@ -352,7 +353,7 @@ theorem C07_timeout_abandons {x : St} (hx : Reachable x) (i : Nat) (hout : x.gh.
   · intro hlt
     have hy := reachable_step hx (.clearTimeout now)
     have hsys : (x.step (.clearTimeout now)).1.sys = x.sys := by
-      simp only [St.step, Sys.step, clearPendingIfTimedOut, hp, hd]
+      simp only [St.step, Reg.Sys.step, clearPendingIfTimedOut, hp, hd]
       rw [if_neg (by omega)]
     refine ⟨hsys, ?_⟩
     rw [(reachable_good hy).inv.out_eq, hsys, hp]; rfl
@@ -361,7 +362,7 @@ theorem C07_timeout_abandons {x : St} (hx : Reachable x) (i : Nat) (hout : x.gh.
     have hiy := (reachable_good hy).inv
     have hreg : (x.step (.clearTimeout now)).1.sys.reg =
         { x.sys.reg with pending := none, pendingTimeoutAt := 0, target := none, nextSendAt := now } := by
-      simp only [St.step, Sys.step, clearPendingIfTimedOut, hp, hd]
+      simp only [St.step, Reg.Sys.step, clearPendingIfTimedOut, hp, hd]
       rw [if_pos (by omega)]
     have hpy : (x.step (.clearTimeout now)).1.sys.reg.pending = none := by rw [hreg]
     refine ⟨by rw [hiy.out_eq, hpy]; rfl, hpy, by rw [hreg], ?_⟩
@@ -382,5 +383,441 @@ theorem C07_timeout_abandons {x : St} (hx : Reachable x) (i : Nat) (hout : x.gh.
 example : exPending.gh.out = [0] ∧ exPending.gh.lastReg1At = 10 ∧
     (exPending.step (.clearTimeout 4009)).1.gh.out = [0] ∧
     (exPending.step (.clearTimeout 4010)).1.gh.out = [] := by decide
+
+/-! # Round 3 — C07 at the level of the sender shell (`Srtla.Sys.step`)
+
+Everything above is about the registration component's own machine (`Reg.Sys`, events `Reg.Ev`,
+emissions `Send`).  The shell model `Srtla.Sys.Sys` (`Model/Sys.lean`, validated against the real
+event-loop arms by component `sys`) embeds the manager and calls it from `handleUplinkPacket` and
+`handleHousekeeping`.  `Lemmas/RegShell.lean` proves that the shell refines that machine; the theorems
+below restate C07 over shell states, shell events and the datagrams of `Out.wire`.
+
+Vocabulary (`Srtla.RegShell`): `abs s` = `s.reg` + the links' `connected` flags; `proj s e` = the
+`Reg.Ev`s one shell event amounts to (`uplink` on a known conn id ↦ `pkt idx now data` with `idx` the
+first link carrying that conn id; `hk now` ↦ `tickEvs now (hkRcs s now)`, `hkRcs` = the links that are
+timed out and allowed to retry in that pass; `client` ↦ one `drop i` per link torn down by a failed
+send; every other constructor — `flush`, `setCfg`, `crit`, `failNext`, and any future constructor that
+does not touch the manager, such as a socket re-creation failure injection — ↦ `[]`);
+`regWire s o` = where the shell puts emission `o` (a `bcast` ↦ one copy per link in link order, anything
+else ↦ the conn id of link `o.target`); `isRegFrame d` = the type field of `d` says REG1 (0x9200) or
+REG2 (0x9201); `RegArm e` = `e` is an `uplink` or `hk` event; `runS s evs` = final state of a shell run
+(the first component of `Srtla.Sys.run`); `ghostAt s0 evs` = the ghost observer after it has read the
+projected event stream of the run; `Startup s0` = fresh manager (optionally after the single
+`start_probing`), no link connected. -/
+section shell
+open Srtla.RegShell
+
+variable {F : Type} [Scalar F]
+
+/-- Toy scalar (`Lemmas/SelectFrame.lean`) used ONLY by the `example`s, to have concrete links. -/
+local instance exScalar : Scalar Int := Srtla.Select.fixScalar
+
+/-- Two fresh uplinks (conn ids 1, 2; `SrtlaConnection::new_registering` at t = 0), fresh manager: the
+shape of the `sys` driver's initial state. -/
+def exShell : Srtla.Sys.Sys Int :=
+  { links := [Link.FLink.newRegistering 1 0, Link.FLink.newRegistering 2 0], reg := Reg.new exId exPid }
+
+/-- REG_NGP on conn id 1 at t = 10 (answered by REG1), the full REG2 at t = 50 (accepted). -/
+def exShellAccepted : Srtla.Sys.Sys Int := runS exShell [.uplink 10 1 ngp, .uplink 50 1 reg2Full]
+
+theorem C07_witness_shell_startup : Startup exShell :=
+  init_fresh exId exPid (List.length_replicate ..) _ (by decide) _ rfl rfl
+
+/-! ## the projection -/
+
+/-- **The shell projects onto the registration machine.**  For every shell state and every shell
+event: running the projected `Reg` events on the abstraction ends in the abstraction of the shell's
+next state (the `reg` field and every `connected` flag evolve identically); in the `uplink` and `hk`
+arms the datagrams of `Out.wire` whose type field says REG1 / REG2 are exactly the machine's emissions,
+in order, each addressed to the conn id of the link index the machine names (a broadcast: one copy per
+link, in link order) — the only other datagrams of a housekeeping tick are keepalives; in every other
+arm the machine emits nothing (what those arms put on the wire is forwarded client data, C01); conn
+ids and the number of links never change. -/
+theorem C07_shell_projects (s : Srtla.Sys.Sys F) (e : Srtla.Sys.Ev) :
+    (Reg.Sys.run (abs s) (proj s e)).1 = abs (Srtla.Sys.step s e).1 ∧
+    (RegArm e → (Srtla.Sys.step s e).2.wire.filter isRegFrame =
+      (Reg.Sys.run (abs s) (proj s e)).2.flatMap (regWire s)) ∧
+    (¬ RegArm e → (Reg.Sys.run (abs s) (proj s e)).2 = []) ∧
+    cids (Srtla.Sys.step s e).1.links = cids s.links :=
+  ⟨(projects s e).state, (projects s e).wire, (projects s e).quiet, (projects s e).ids⟩
+
+/-- The `uplink` arm, without the filter: the WHOLE wire output of an `uplink` event is the machine's
+emission list (empty, or one immediate REG1 to the arrival conn id). -/
+theorem C07_shell_projects_uplink (s : Srtla.Sys.Sys F) (now cid : Nat) (data : List UInt8) :
+    (Srtla.Sys.step s (.uplink now cid data)).2.wire =
+      (Reg.Sys.run (abs s) (proj s (.uplink now cid data))).2.flatMap (regWire s) :=
+  (uplink_run s now cid data).2.1
+
+/-- Run form: after ANY shell run the machine run over the projected events is in the abstraction of
+the shell's state; from a start-up state the ghost-instrumented machine state is `Reachable`, so all the
+theorems of the first part of this file apply to it. -/
+theorem C07_shell_projects_run (s0 : Srtla.Sys.Sys F) (evs : List Srtla.Sys.Ev) :
+    (Reg.Sys.run (abs s0) (projRun s0 evs)).1 = abs (runS s0 evs) ∧
+    (ghostAt s0 evs).sys = abs (runS s0 evs) ∧
+    (Startup s0 → Reachable (ghostAt s0 evs)) :=
+  ⟨run_projRun s0 evs, ghostAt_sys s0 evs, fun h => ghostAt_reachable h evs⟩
+
+-- what the constructors project to
+example (s : Srtla.Sys.Sys F) (now : Nat) : proj s (.flush now) = [] ∧ proj s (.crit now) = [] ∧
+    proj s (.failNext now) = [] ∧ proj s (.hk now) = tickEvs now (hkRcs s now) := ⟨rfl, rfl, rfl, rfl⟩
+
+-- REG_NGP on conn id 1 is `pkt 0`
+example : proj exShell (.uplink 10 1 ngp) = [.pkt 0 10 ngp] := by rfl
+
+set_option maxRecDepth 8192 in
+-- its wire output is the REG1 carrying the start-up id; in the tick after the acceptance no link takes the
+-- reconnect branch (both are inside their start-up grace) and the tick's wire output is the broadcast, one
+-- copy per link
+example :
+    (Srtla.Sys.step exShell (.uplink 10 1 ngp)).2.wire = [(1, Codec.createReg1 exId)] ∧
+    hkRcs exShellAccepted 60 = [] ∧
+    (Srtla.Sys.step exShellAccepted (.hk 60)).2.wire =
+      [(1, Codec.createReg2 (List.replicate 256 3)), (2, Codec.createReg2 (List.replicate 256 3))] := by
+  decide +kernel
+
+/-! ## single outstanding REG1, over shell runs -/
+
+/-- Along every shell run from a start-up state: at most one uplink has an outstanding REG1, and it
+is the uplink `pending_reg2_idx` names; and in the next `uplink` / `hk` event EVERY datagram on ANY
+wire whose type field says REG1 (0x9200) goes to the conn id of one and the same link — the one that
+is pending after the event.  (Remark, with `step_sends` and `C07_abandon_tick` below: an `uplink` REG1
+needs nothing pending before the event, and a tick that finds an attempt pending either keeps it on its
+uplink or abandons it and then sends no REG1 in the same tick.) -/
+theorem C07_single_outstanding_shell (s0 : Srtla.Sys.Sys F) (h0 : Startup s0) (evs : List Srtla.Sys.Ev) :
+    (ghostAt s0 evs).gh.out.length ≤ 1 ∧
+    (ghostAt s0 evs).gh.out = (runS s0 evs).reg.pending.toList ∧
+    ∀ (e : Srtla.Sys.Ev) (d : Nat × List UInt8), RegArm e →
+      d ∈ (Srtla.Sys.step (runS s0 evs) e).2.wire → Codec.getPacketTypeS d.2 = some 0x9200 →
+      ∃ i l, (Srtla.Sys.step (runS s0 evs) e).1.reg.pending = some i ∧
+        (runS s0 evs).links[i]? = some l ∧ d.1 = l.core.connId := by
+  have hx := ghostAt_reachable h0 evs
+  obtain ⟨h1, h2, -⟩ := C07_single_outstanding hx
+  rw [ghostAt_sys] at h2
+  refine ⟨h1, h2, ?_⟩
+  intro e d hra hd ht
+  obtain ⟨o, ho, hdo, hpk⟩ := frame_origin (runS s0 evs) e hra d hd (by simp [isRegFrame, ht])
+  have hreg1 : o.isReg1 = true := by
+    have := run_sends (P := fun o => (o.isReg1 = true ∧ Codec.getPacketTypeS o.pkt = some 0x9200) ∨
+        (o.isReg1 = false ∧ Codec.getPacketTypeS o.pkt = some 0x9201))
+      (fun x e o ho => step_send_type x e o ho) _ _ o ho
+    rcases this with h | h
+    · exact h.1
+    · rw [← hpk, ht] at h; simp at h
+  have hnb : ¬ o.kind = .bcast := by
+    intro hk; simp [Send.isReg1, hk] at hreg1
+  refine ⟨o.target, ?_⟩
+  unfold regWire regWireIds at hdo
+  rw [if_neg hnb] at hdo
+  obtain ⟨c, hc, rfl⟩ := List.mem_map.1 hdo
+  unfold cids at hc
+  rw [List.getElem?_map] at hc
+  cases hl : (runS s0 evs).links[o.target]? with
+  | none => rw [hl] at hc; simp at hc
+  | some l =>
+    rw [hl] at hc
+    simp only [Option.map_some, Option.toList_some, List.mem_cons, List.not_mem_nil, or_false] at hc
+    exact ⟨l, proj_reg1_pending _ e o ho hreg1, rfl, hc⟩
+
+set_option maxRecDepth 8192 in
+example : (ghostAt exShell [.uplink 10 1 ngp]).gh.out = [0] ∧
+    (runS exShell [.uplink 10 1 ngp]).reg.pending = some 0 ∧
+    (Srtla.Sys.step exShell (.uplink 10 1 ngp)).2.wire = [(1, Codec.createReg1 exId)] := by
+  decide +kernel
+
+/-! ## every REG1 / REG2 the manager puts on a wire carries the adopted id -/
+
+/-- Along every shell run from a start-up state the id the manager holds is the id of the latest
+accepted REG2 (the start-up id before) and has 256 bytes; and in the next `uplink` / `hk` event every
+datagram on any wire whose type field says REG1 / REG2 is `createReg1 id` / `createReg2 id` of exactly
+that id.  (The start-up probes are sent before the event loop and are not `Sys.step` output, see
+`C07_probe_ids`.  The `client` / `flush` arms forward what the SRT client wrote, byte for byte — C01 —
+whatever its first two bytes are: see the example below.) -/
+theorem C07_ids_shell (s0 : Srtla.Sys.Sys F) (h0 : Startup s0) (evs : List Srtla.Sys.Ev) :
+    (runS s0 evs).reg.id = (ghostAt s0 evs).gh.adopted ∧ (runS s0 evs).reg.id.length = 256 ∧
+    ∀ (e : Srtla.Sys.Ev) (d : Nat × List UInt8), RegArm e →
+      d ∈ (Srtla.Sys.step (runS s0 evs) e).2.wire → isRegFrame d = true →
+      d.2 = Codec.createReg1 (runS s0 evs).reg.id ∨ d.2 = Codec.createReg2 (runS s0 evs).reg.id := by
+  have hg := reachable_good (ghostAt_reachable h0 evs)
+  have hid := hg.inv.id_eq
+  have hlen := hg.idlen
+  rw [ghostAt_sys] at hid hlen
+  refine ⟨hid.symm, hlen, ?_⟩
+  intro e d hra hd hf
+  obtain ⟨o, ho, -, hpk⟩ := frame_origin (runS s0 evs) e hra d hd hf
+  rw [hpk, proj_ids _ e o ho]
+  split
+  · exact Or.inl rfl
+  · exact Or.inr rfl
+
+set_option maxRecDepth 8192 in
+-- after the acceptance the adopted id is bytes 2..258 of the REG2, and the tick's REG2s carry it
+example : exShellAccepted.reg.id = List.replicate 256 3 ∧
+    (ghostAt exShell [.uplink 10 1 ngp, .uplink 50 1 reg2Full]).gh.adopted = List.replicate 256 3 ∧
+    ∀ d ∈ (Srtla.Sys.step exShellAccepted (.hk 60)).2.wire, d.2 = Codec.createReg2 (List.replicate 256 3) := by
+  decide +kernel
+
+-- NOT covered, on purpose: the data path does not look at what it forwards.  A datagram from the local
+-- SRT client that happens to start with 0x92 0x00 leaves on an uplink as it is (here: pre-registration
+-- forwarding, four copies reach the batch threshold of a link in the low-activity regime).
+set_option maxRecDepth 8192 in
+example :
+    let s : Srtla.Sys.Sys Int := { exShell with links := exShell.links.map fun l => { l with regime := .low } }
+    (runS s [.client 5 [0x92, 0, 1], .client 5 [0x92, 0, 1], .client 5 [0x92, 0, 1]]).links.map (·.queue.length) = [3, 0] ∧
+    (Srtla.Sys.step (runS s [.client 5 [0x92, 0, 1], .client 5 [0x92, 0, 1], .client 5 [0x92, 0, 1]])
+      (.client 5 [0x92, 0, 1])).2.wire = List.replicate 4 (1, [0x92, 0, 1]) := by
+  decide +kernel
+
+/-! ## an uplink becomes connected only on a REG3 received on that uplink, in the shell -/
+
+/-- For every shell state and every shell event: if the link at index `k` is connected after the
+event and was not before, the event is an `uplink` datagram of type REG3 (0x9202 = 37378) on the conn
+id of that very link (`k` is the first link carrying that conn id).  No `client`, `flush`, `hk`,
+configuration or injection event ever sets a `connected` flag. -/
+theorem C07_connected_only_by_reg3_shell (s : Srtla.Sys.Sys F) (e : Srtla.Sys.Ev) (k : Nat) (l l' : Link.FLink F)
+    (hl : s.links[k]? = some l) (hl' : (Srtla.Sys.step s e).1.links[k]? = some l')
+    (h1 : l'.core.connected = true) (h0 : l.core.connected = false) :
+    ∃ now cid data, e = .uplink now cid data ∧ data ≠ [] ∧ l.core.connId = cid ∧
+      s.links.findIdx? (·.core.connId == cid) = some k ∧ Codec.getPacketTypeS data = some 37378 := by
+  obtain ⟨now, cid, data, he, hne, hidx, ht⟩ := connected_only_reg3 s e k
+    (by unfold flags; rw [List.getElem?_map, hl']; simp [h1])
+    (by unfold flags; rw [List.getElem?_map, hl]; simp [h0])
+  obtain ⟨l2, hl2, hc⟩ := Uplink.findIdx_get s.links cid k hidx
+  rw [hl] at hl2; cases hl2
+  exact ⟨now, cid, data, he, by intro h; subst h; simp at hne, hc, hidx, ht⟩
+
+set_option maxRecDepth 8192 in
+example : flags (Srtla.Sys.step (Srtla.Sys.step exShellAccepted (.hk 60)).1 (.uplink 70 2 reg3)).1.links = [false, true] ∧
+    flags (Srtla.Sys.step exShellAccepted (.hk 60)).1.links = [false, false] := by
+  decide +kernel
+
+/-! ## one REG2 round to ALL uplinks per acceptance -/
+
+/-- **The broadcast reaches every uplink, exactly once per acceptance.**  For every shell state `s`:
+
+* if a broadcast is owed (`broadcast_reg2_pending`, raised by an accepted REG2), the NEXT housekeeping
+  event's wire output ENDS with exactly one REG2 carrying the current id for EVERY link of the shell,
+  in link order (`s.links.map …`); the machine's emissions of that tick are `sends' ++ [bcast]` with no
+  broadcast among `sends'`, and `sends'` accounts for every other REG frame of the tick (`pre`:
+  keepalives, a driver REG1, and the reconnect branch's own REG2 re-send to a timed-out link — so such
+  a link receives the same REG2 twice in that tick, once per mechanism; see the example);
+* the tick clears the debt, a tick without debt emits no broadcast, and no other event ever emits one;
+* the debt is raised only by an `uplink` datagram that is a REG2 (0x9201 = 37377) of at least 258 bytes
+  on the conn id of the link whose REG1 is outstanding.
+
+Hence no later event repeats the round unless a new REG2 is accepted. -/
+theorem C07_broadcast_all_uplinks_once (s : Srtla.Sys.Sys F) (now : Nat) :
+    (s.reg.broadcastPending = true →
+      ∃ pre sends', (Srtla.Sys.step s (.hk now)).2.wire =
+          pre ++ s.links.map (fun l => (l.core.connId, Codec.createReg2 s.reg.id)) ∧
+        (Reg.Sys.run (abs s) (proj s (.hk now))).2 =
+          sends' ++ [({ kind := .bcast, target := 0, pkt := Codec.createReg2 s.reg.id } : Send)] ∧
+        (∀ o ∈ sends', o.kind ≠ .bcast) ∧ pre.filter isRegFrame = sends'.flatMap (regWire s)) ∧
+    (s.reg.broadcastPending = false → ∀ o ∈ (Reg.Sys.run (abs s) (proj s (.hk now))).2, o.kind ≠ .bcast) ∧
+    (Srtla.Sys.step s (.hk now)).1.reg.broadcastPending = false ∧
+    (∀ e : Srtla.Sys.Ev, (∀ t, e ≠ .hk t) → ∀ o ∈ (Reg.Sys.run (abs s) (proj s e)).2, o.kind ≠ .bcast) ∧
+    (∀ e : Srtla.Sys.Ev, (Srtla.Sys.step s e).1.reg.broadcastPending = true → s.reg.broadcastPending = false →
+      ∃ t cid data idx, e = .uplink t cid data ∧ s.links.findIdx? (·.core.connId == cid) = some idx ∧
+        s.reg.pending = some idx ∧ Codec.getPacketTypeS data = some 37377 ∧ 258 ≤ data.length) := by
+  obtain ⟨r1, r2⟩ := hk_bcast_round s now
+  refine ⟨r1, r2, (hk_broadcast s now).2, ?_, ?_⟩
+  · intro e hne o ho
+    by_cases hra : RegArm e
+    · cases e with
+      | hk t => exact absurd rfl (hne t)
+      | uplink t cid data =>
+        rcases proj_uplink_cases s t cid data with h | ⟨idx, -, -, h⟩
+        · rw [h] at ho; simp [Reg.Sys.run] at ho
+        · rw [h, run_single] at ho
+          rcases step_sends _ _ o ho with h | h | h | h | h
+          · rw [h.1]; simp
+          · exact absurd h.2.1 (by simp [Ev.IsDriver])
+          · rw [h.1]; simp
+          · rw [h.1]; simp
+          · exact absurd h.2.1 (by simp [Ev.IsDriver])
+      | _ => exact absurd hra (fun h => h)
+    · rw [(projects s e).quiet hra] at ho
+      simp at ho
+  · intro e h1 h0
+    have hst : (Reg.Sys.run (abs s) (proj s e)).1.reg.broadcastPending = true := by
+      rw [(projects s e).state]; exact h1
+    by_cases hra : RegArm e
+    · cases e with
+      | uplink t cid data =>
+        rcases proj_uplink_cases s t cid data with h | ⟨idx, -, hidx, h⟩
+        · rw [h] at hst; exact absurd (show s.reg.broadcastPending = true from hst) (by rw [h0]; simp)
+        · rw [h, run_single] at hst
+          rcases step_bp (abs s) (.pkt idx t data) with hb | hb | ⟨idx', t', buf, he, ht, hlen, hp⟩
+          · rw [hb] at hst; exact absurd (show s.reg.broadcastPending = true from hst) (by rw [h0]; simp)
+          · exact absurd hb (by simp [Ev.IsDriver])
+          · cases he
+            exact ⟨t, cid, data, idx, rfl, hidx, hp, ht, hlen⟩
+      | hk t =>
+        have hb : (Srtla.Sys.step s (.hk t)).1.reg.broadcastPending = false := (hk_broadcast s t).2
+        rw [hb] at h1; cases h1
+      | _ => exact absurd hra (fun h => h)
+    · rw [proj_quiet_reg s e hra, h0] at hst
+      cases hst
+
+set_option maxRecDepth 8192 in
+-- a broadcast is owed after the acceptance; the tick at 60 pays it with one REG2 per link and clears the
+-- debt; had the first tick come at 5100 instead (both links past their start-up grace → reconnect branch
+-- with nothing pending → REG2 re-send), each link would get the same REG2 twice in that tick: once from the
+-- reconnect branch (`pre`), once from the broadcast round; the tick after that sends no REG2 at all
+example :
+    exShellAccepted.reg.broadcastPending = true ∧
+    (Srtla.Sys.step exShellAccepted (.hk 60)).2.wire =
+      exShellAccepted.links.map (fun l => (l.core.connId, Codec.createReg2 exShellAccepted.reg.id)) ∧
+    (Srtla.Sys.step exShellAccepted (.hk 60)).1.reg.broadcastPending = false ∧
+    (Srtla.Sys.step exShellAccepted (.hk 5100)).2.wire =
+      [(1, Codec.createReg2 (List.replicate 256 3)), (2, Codec.createReg2 (List.replicate 256 3))] ++
+      exShellAccepted.links.map (fun l => (l.core.connId, Codec.createReg2 exShellAccepted.reg.id)) ∧
+    (Srtla.Sys.step (Srtla.Sys.step exShellAccepted (.hk 5100)).1 (.hk 6200)).2.wire = [] := by
+  decide +kernel
+
+/-! ## the 4 s abandonment, measured from the FIRST REG1 of an attempt
+
+`C07_timeout_abandons` / `C07_deadline` are relative to the LATEST REG1: the housekeeping reconnect
+branch re-sends REG1 to the pending uplink through `build_reg1_for` and thereby renews the 4000 ms
+wait.  The three theorems below say exactly when that happens in the shell, that — with working
+sockets and working sends on the pending link — it happens at most ONCE per attempt, and what bound
+follows from the first REG1; the two examples after them exhibit the postponement (the bound 4000 ms
+from the first REG1 does NOT hold) and the unbounded postponement when sends on the pending link fail. -/
+
+/-- **One housekeeping tick while uplink `i` is pending** (any shell state; `probing ≠ waiting` and a
+non-zero deadline hold in every reachable state with a pending attempt, see `C07_abandon_bound`).
+From the stored deadline on, the tick abandons the attempt (and starts no new one in the same tick).
+Before it, the attempt stays on `i`, and its deadline becomes `now + 4000` iff link `i` is timed out
+and allowed to retry at `now` — i.e. iff this tick takes the reconnect branch for the pending link
+itself (socket re-creation, REG1 re-sent to it); otherwise the deadline is unchanged. -/
+theorem C07_abandon_tick (s : Srtla.Sys.Sys F) (now i : Nat) (hp : s.reg.pending = some i)
+    (hw : s.reg.probing ≠ .waiting) (hD : s.reg.pendingTimeoutAt ≠ 0) :
+    (s.reg.pendingTimeoutAt ≤ now → (Srtla.Sys.step s (.hk now)).1.reg.pending = none) ∧
+    (now < s.reg.pendingTimeoutAt →
+      (Srtla.Sys.step s (.hk now)).1.reg.pending = some i ∧
+      (Srtla.Sys.step s (.hk now)).1.reg.pendingTimeoutAt =
+        (if i ∈ hkRcs s now then now + 4000 else s.reg.pendingTimeoutAt)) ∧
+    (i ∈ hkRcs s now ↔ ∃ l, s.links[i]? = some l ∧ l.isTimedOut now = true ∧
+      l.shouldAttemptReconnect now = true) :=
+  hk_deadline s now i hp hw hD
+
+set_option maxRecDepth 8192 in
+-- the hypotheses hold right after the first REG1 (sent at 4000), and the pending link is in the reconnect set
+-- of the tick at 5100 (it has left its start-up grace) but not of the tick at 4500
+example : (runS exShell [.uplink 4000 1 ngp]).reg.pending = some 0 ∧
+    (runS exShell [.uplink 4000 1 ngp]).reg.probing ≠ .waiting ∧
+    (runS exShell [.uplink 4000 1 ngp]).reg.pendingTimeoutAt = 8000 ∧
+    0 ∈ hkRcs (runS exShell [.uplink 4000 1 ngp]) 5100 ∧ 0 ∉ hkRcs (runS exShell [.uplink 4000 1 ngp]) 4500 := by
+  decide +kernel
+
+/-- **No second re-send.**  The record the reconnect branch at `t` leaves (`record_attempt`,
+`reset_for_reconnect`, `mark_success`, `reset_startup_grace`) has last attempt `t`, failure count 0
+and — if the link was never established — a grace deadline `t + 5000`; and a link whose reconnection
+fields are like that (`t > 0`) is NOT allowed to retry at any `now < t + 5000`: the 5000 ms start-up
+grace of a never-established link, the 5000 ms first back-off step of an established one.  Since the
+renewed wait ends at `t + 4000 < t + 5000`, the tick that could re-send a second time abandons the
+attempt first. -/
+theorem C07_no_second_resend (l m : Link.FLink F) (t now : Nat) (ht : 0 < t) (hnow : now < t + 5000)
+    (hm : m.lastAttemptMs = t ∧ m.failCount = 0 ∧ (m.established = 0 → t + 5000 ≤ m.graceDeadline)) :
+    (Hk.reconnectLink l t).lastAttemptMs = t ∧ (Hk.reconnectLink l t).failCount = 0 ∧
+    (Hk.reconnectLink l t).graceDeadline = t + 5000 ∧
+    m.shouldAttemptReconnect now = false := by
+  obtain ⟨f1, f2, -, f4, -⟩ := Hk.reconnectLink_fields l t
+  exact ⟨f1, f2, f4, FreshAt.no_retry ⟨hm.1, hm.2.1, hm.2.2⟩ ht now hnow⟩
+
+set_option maxRecDepth 8192 in
+-- the pending link after the re-send at 5100: last attempt 5100, count 0, never established, grace 10100;
+-- at 9099 it is inside its grace window and may not retry
+example : ∃ m, (runS exShell [.uplink 4000 1 ngp, .hk 5100]).links[0]? = some m ∧ m.lastAttemptMs = 5100 ∧
+    m.failCount = 0 ∧ m.established = 0 ∧ m.graceDeadline = 10100 ∧ m.shouldAttemptReconnect 9099 = false :=
+  ⟨_, List.getElem?_eq_getElem (by decide +kernel), by decide +kernel⟩
+
+/-- **The bound from the first REG1.**  Take any shell run `evs1` from a start-up state after which
+uplink `i` is pending with stored deadline `D` — in particular the state right after the FIRST REG1
+of an attempt, sent at `t0`: then `D = t0 + 4000` (`C07_deadline`).  Let `evs2` be ANY continuation
+(client datagrams, uplink datagrams of any bytes on any link, flushes, ticks, configuration changes,
+send-failure injections on OTHER links) such that
+
+* the attempt stays pending after every event (no REG2 accepted, no REG_ERR, not abandoned),
+* no send failure is injected for the pending link's conn id (none is queued at the start, no
+  `failNext` event for it) — socket re-creation itself always succeeds in the model,
+* housekeeping ticks carry a positive clock.
+
+Then the reconnect branch re-sent REG1 to the pending uplink at most ONCE: the stored deadline is `D`
+or `t + 4000` for a single tick `t < D`, hence `< D + 4000`; and every tick of `evs2` (each left the
+attempt pending) had `now < D + 3999`.  With `D = t0 + 4000`: the wait is never renewed past
+`t0 + 7999`, and the first housekeeping tick at or after `t0 + 7999` abandons the attempt if nothing
+ended it before — the bound that holds from the first REG1 is 8 s, not 4 s. -/
+theorem C07_abandon_bound (s0 : Srtla.Sys.Sys F) (h0 : Startup s0) (evs1 evs2 : List Srtla.Sys.Ev)
+    (i D : Nat) (l : Link.FLink F)
+    (hp : (runS s0 evs1).reg.pending = some i) (hD : (runS s0 evs1).reg.pendingTimeoutAt = D)
+    (hl : (runS s0 evs1).links[i]? = some l) (hnf : (runS s0 evs1).failNext.contains l.core.connId = false)
+    (hun : Unanswered i (runS s0 evs1) evs2)
+    (hev : ∀ e ∈ evs2, e ≠ .failNext l.core.connId ∧ ∀ now, e = .hk now → 0 < now) :
+    (runS s0 (evs1 ++ evs2)).reg.pending = some i ∧
+    ((runS s0 (evs1 ++ evs2)).reg.pendingTimeoutAt = D ∨
+      ∃ t, 0 < t ∧ t < D ∧ (runS s0 (evs1 ++ evs2)).reg.pendingTimeoutAt = t + 4000) ∧
+    (runS s0 (evs1 ++ evs2)).reg.pendingTimeoutAt < D + 4000 ∧
+    ∀ pre now post, evs2 = pre ++ Srtla.Sys.Ev.hk now :: post → now < D + 3999 := by
+  obtain ⟨hA, hticks⟩ := abandon_bound h0 i D l evs2 evs1 hp hD hl hnf hun hev
+  refine ⟨hA.pending, ?_, hA.deadline_lt, hticks⟩
+  obtain ⟨l', -, -, h | ⟨t, a, b, c, -⟩⟩ := hA.link
+  · exact Or.inl h
+  · exact Or.inr ⟨t, a, b, c⟩
+
+/-- A client datagram for the examples (SRT data packet, sequence number 1). -/
+def exData : List UInt8 := [0, 0, 0, 1, 0, 0, 0, 0, 0, 0, 0, 0, 0, 0, 0, 0, 1]
+
+set_option maxRecDepth 8192 in
+-- **The postponement, concretely** (working sockets, no send failure).  REG_NGP on conn id 1 at 4000 is
+-- answered by the first REG1: deadline 8000.  At the tick at 5100 both fresh links have left their start-up
+-- grace (5000), so the tick takes the reconnect branch for both; the pending one gets REG1 again and the
+-- deadline moves to 9100.  The tick at 9099 — 5099 ms after the first REG1 — does not abandon; the tick at
+-- 9100 does.  So "abandoned 4 s after the REG1" holds for the latest REG1 only.
+example :
+    (runS exShell [.uplink 4000 1 ngp]).reg.pendingTimeoutAt = 8000 ∧
+    hkRcs (runS exShell [.uplink 4000 1 ngp]) 5100 = [0, 1] ∧
+    (Srtla.Sys.step (runS exShell [.uplink 4000 1 ngp]) (.hk 5100)).2.wire = [(1, Codec.createReg1 exId)] ∧
+    (runS exShell [.uplink 4000 1 ngp, .hk 5100]).reg.pendingTimeoutAt = 9100 ∧
+    (runS exShell [.uplink 4000 1 ngp, .hk 5100, .hk 9099]).reg.pending = some 0 ∧
+    (runS exShell [.uplink 4000 1 ngp, .hk 5100, .hk 9100]).reg.pending = none := by
+  decide +kernel
+
+set_option maxRecDepth 8192 in
+-- the hypotheses of `C07_abandon_bound` are met by that run (with a client datagram in between), and its
+-- conclusion: the deadline stays below 8000 + 4000
+example : (runS exShell ([.uplink 4000 1 ngp] ++ [.hk 5100, .client 5200 exData, .hk 9099])).reg.pendingTimeoutAt
+    < 8000 + 4000 :=
+  (C07_abandon_bound exShell C07_witness_shell_startup [.uplink 4000 1 ngp] [.hk 5100, .client 5200 exData, .hk 9099]
+    0 8000 ((runS exShell [.uplink 4000 1 ngp]).links[0]'(by decide +kernel)) (by decide +kernel) (by decide +kernel)
+    (List.getElem?_eq_getElem _)
+    (by decide +kernel) ⟨by decide +kernel, by decide +kernel, by decide +kernel, trivial⟩
+    (by
+      intro e he
+      simp only [List.mem_cons, List.not_mem_nil, or_false] at he
+      rcases he with rfl | rfl | rfl <;> simp)).2.2.1
+
+/-- One round of the second example: a send failure is injected for conn id 1, four client datagrams
+reach the batch threshold of the low-activity regime on the pending link (pre-registration forwarding
+uses the first link that is not timed out), the flush fails, the link is torn down
+(`mark_for_recovery`: grace deadline := 0); one second later the next tick retries it. -/
+def exFailRound (t : Nat) : List Srtla.Sys.Ev :=
+  [.failNext 1, .client t exData, .client t exData, .client t exData, .client t exData, .hk (t + 1000)]
+
+set_option maxRecDepth 8192 in
+-- **Why the hypothesis on send failures is needed.**  With failing sends on the PENDING link every tear-down
+-- zeroes its grace deadline, the next tick (≥ 1000 ms after the previous attempt: `INITIAL_RETRY_MS`) takes
+-- the reconnect branch again, re-sends REG1 and renews the wait: first REG1 at 4000, deadline 8000 → 9100 →
+-- 10200 → 11300 → 12400 ≥ 4000 + 8000, and so on for as long as sends keep failing — the attempt is never
+-- abandoned and no other uplink is tried (same effect as the failing socket re-creation of corpus/reg/16,
+-- reached through `send` errors instead).
+example :
+    (runS exShell ([.hk 1000, .uplink 4000 1 ngp, .hk 5100] ++ exFailRound 5200)).reg.pendingTimeoutAt = 10200 ∧
+    (runS exShell ([.hk 1000, .uplink 4000 1 ngp, .hk 5100] ++ exFailRound 5200 ++ exFailRound 6300 ++
+      exFailRound 7400)).reg.pendingTimeoutAt = 12400 ∧
+    (runS exShell ([.hk 1000, .uplink 4000 1 ngp, .hk 5100] ++ exFailRound 5200 ++ exFailRound 6300 ++
+      exFailRound 7400)).reg.pending = some 0 := by
+  decide +kernel
+
+end shell
 
 end Srtla.Props.C07
